@@ -142,6 +142,16 @@ def _op_bvp(ctx, op, state):
             return
     fx, coeffs = OP.make_callables(P)
     bd = _bd_cond(P, twin)
+    if not o.get("own_inputs"):
+        # the caller's own input objects (mesh array, coefficient list, boundary lists) are created once per run and
+        # handed to every solve: a solver that edits them changes what the *next* solve of the same problem sees
+        sh = state.setdefault("shared", {})
+        x = sh.setdefault("x", x)
+        if "fx" not in sh:
+            sh["fx"], sh["coeffs"] = fx, coeffs
+        fx, coeffs = sh["fx"], sh["coeffs"]
+        bd = sh.setdefault(("bd", mode), bd)
+        ctx.probes.hit("caller-inputs-shared-between-solves")
     derivs = bool(o.get("derivs", True))
     guess = None
     if o.get("guess") == "zeros":
@@ -228,6 +238,11 @@ def _op_ivp(ctx, op, state):
             tf = twin  # the IVP solver sees a 2-element span first: give it the explicit scale
     fx, coeffs = OP.make_callables(P)
     y0 = [float(OP.sol_deriv(P["terms"], k, np.array([a]))[0]) for k in range(P["order"])]
+    sh = state.setdefault("shared", {})
+    kind = ("array", "list", "array", "tuple")[(P["n"] + P["order"]) % 4]
+    if "y0" not in sh:
+        sh["y0"] = np.array(y0, dtype=float) if kind == "array" else (tuple(y0) if kind == "tuple" else list(y0))
+    y0 = sh["y0"]  # one initial-data object for every IVP solve of the run (direct and through the transform)
     rtol = 1e-10
     oc = _outcome(lambda: solve_ode_ivp((a, b), fx, coeffs, y0, transform=tf, method=method, no_derivatives=False, rtol=rtol, atol=1e-10))
     sig = f"{P['order']}:{_tname(tspec)}:{method}"
@@ -307,13 +322,13 @@ class OdeSeamEngine:
         modes = ["direct"] if P["tspec"] is None else ["tf", "tf", "direct"]
         for _ in range(rng.randint(3, 9)):
             u = rng.random()
-            if u < 0.62:
+            if u < 0.58:
                 beh = rng.choice(BEHAVIOURS)
-                o = {"derivs": rng.random() < 0.8, "share_tf": rng.random() < 0.3}
+                o = {"derivs": rng.random() < 0.8, "share_tf": rng.random() < 0.3, "own_inputs": rng.random() < 0.25}
                 if rng.random() < 0.08:
                     o["guess"] = "zeros"
                 ops.append(["bvp", rng.choice(modes), beh, rng.randrange(1000), o])
-            elif u < 0.74:
+            elif u < 0.78:
                 ops.append(["ivp", rng.choice(modes), rng.choice(["DOP853", "RK45", "Radau", "LSODA"])])
             elif u < 0.88:
                 ops.append(["perturb", rng.randrange(200), rng.choice([None, 0, 7])])
